@@ -45,35 +45,67 @@ Theorem C17_line_number_crlf : forall content p, crlf_file content = true -> (p 
 Proof. exact line_number_crlf. Qed.
 Print Assumptions C17_line_number_crlf.
 
+(* shown text and caret: no condition on the line - a line of blanks only (or an empty one) is shown as the
+   empty text ([shown line = []], RenderProofs.shown_all_blank) and the caret offset is 0 up to the end of the
+   blanks (natural-number subtraction) *)
 Theorem C17_line_text_lf : forall content pre line post p, lf_file content = true -> is_line_at LF content pre line post p ->
-  (lead_blanks line < length line)%nat ->
   source_substring content p = shown line.
 Proof. exact line_text_lf. Qed.
 Print Assumptions C17_line_text_lf.
 
 Theorem C17_caret_lf : forall content pre line post p, lf_file content = true -> is_line_at LF content pre line post p ->
-  (lead_blanks line < length line)%nat ->
   caret_offset content p = N.of_nat (N.to_nat p - length pre - lead_blanks line).
 Proof. exact caret_lf. Qed.
 Print Assumptions C17_caret_lf.
 
 Theorem C17_line_text_cr : forall content pre line post p, cr_file content = true -> is_line_at CR content pre line post p ->
-  (lead_blanks line < length line)%nat ->
   source_substring content p = shown line.
 Proof. exact line_text_cr. Qed.
 Print Assumptions C17_line_text_cr.
 
 Theorem C17_caret_cr : forall content pre line post p, cr_file content = true -> is_line_at CR content pre line post p ->
-  (lead_blanks line < length line)%nat ->
   caret_offset content p = N.of_nat (N.to_nat p - length pre - lead_blanks line).
 Proof. exact caret_cr. Qed.
 Print Assumptions C17_caret_cr.
+
+(* CRLF files: the line is what stands between two CR LF pairs (RenderSpec.is_line_at_crlf); a position on the
+   CR or on the LF that ends the line belongs to it *)
+Theorem C17_line_text_crlf : forall content pre line post p, crlf_file content = true ->
+  is_line_at_crlf content pre line post p ->
+  source_substring content p = shown line.
+Proof. exact line_text_crlf. Qed.
+Print Assumptions C17_line_text_crlf.
+
+Theorem C17_caret_crlf : forall content pre line post p, crlf_file content = true ->
+  is_line_at_crlf content pre line post p ->
+  caret_offset content p = N.of_nat (N.to_nat p - length pre - lead_blanks line).
+Proof. exact caret_crlf. Qed.
+Print Assumptions C17_caret_crlf.
 
 (* "ab\n  cd e\nxyz", position 6 (the 'd' on line 2): line 2, shown text "cd e", caret offset 1 *)
 Example C17_example :
   render [x61; x62; x0a; x20; x20; x63; x64; x20; x65; x0a; x78; x79; x7a] 6
   = ROk 2 [x63; x64; x20; x65] 1.
 Proof. vm_compute. reflexivity. Qed.
+
+(* a line of blanks only (seventh-round fix): "a\n  \nb", position 3 (the second blank of line 2): line 2, nothing
+   shown, caret offset 0 - and the same whether or not lines follow ("a\n  ", position 3); before the fix the blanks
+   were shown and, with lines following, counted together with the blanks of the next lines *)
+Example C17_example_blank_line :
+  render [x61; x0a; x20; x20; x0a; x62] 3 = ROk 2 [] 0 /\
+  render [x61; x0a; x20; x20] 3 = ROk 2 [] 0 /\
+  (* on the first blank, and on the LF that ends the line *)
+  render [x61; x0a; x20; x20; x0a; x62] 2 = ROk 2 [] 0 /\
+  render [x61; x0a; x20; x20; x0a; x62] 4 = ROk 2 [] 0 /\
+  (* CRLF: "a\r\n\t\t\r\nb" on the second tab, on the CR and on the LF of line 2; CR: "a\r  \rb" *)
+  render [x61; x0d; x0a; x09; x09; x0d; x0a; x62] 4 = ROk 2 [] 0 /\
+  render [x61; x0d; x0a; x09; x09; x0d; x0a; x62] 5 = ROk 2 [] 0 /\
+  render [x61; x0d; x0a; x09; x09; x0d; x0a; x62] 6 = ROk 2 [] 1 /\
+  render [x61; x0d; x20; x20; x0d; x62] 3 = ROk 2 [] 0 /\
+  (* "\t\n", positions 0 and 1 *)
+  render [x09; x0a] 0 = ROk 1 [] 0 /\
+  render [x09; x0a] 1 = ROk 1 [] 0.
+Proof. vm_compute. repeat split; reflexivity. Qed.
 
 (* Property C17 (parsing half) — the position Document.Check (strict mode) reports for a JSON
    text is the offset of the first byte that cannot continue the text; an input that merely
